@@ -34,7 +34,11 @@ def field_bits(e, n):
 def check(c):
     if c["law"] == "int_bytes":
         v, n = c["v"], c["n"]
+        b0 = cv.scsi_int_to_ba(v, n)          # what an earlier caller did with ITS result must not matter
+        b0 += b"\xaa"
+        b0[0] ^= 0xFF
         b = cv.scsi_int_to_ba(v, n)
+        if b is b0: return "int_to_ba returns the same object twice (a caller's changes show up in later results)"
         if len(b) != n: return "int_to_ba length"
         if cv.scsi_ba_to_int(b) != v % (256 ** n): return "ba_to_int(int_to_ba v n) != v mod 256^n"
         for i in range(n):
@@ -143,6 +147,14 @@ def run(rep, tier, seed, summary):
     if ok:
         vlib.print_assumptions(rep, "C10")
     bad = corr_converter.run(rep, tier, seed)
+    # the laws themselves, on the implementation, on every run (also when every obligation checks)
+    n_laws = 1500 if tier == "quick" else 20000
+    hit0 = search(seed ^ 0x1A, n_laws)
+    rep.suite("codec laws on the implementation (big-endian / inverse / fresh result objects; decode-after-encode, frame, order independence, "
+              "encode-after-decode) on generated well-formed layouts", n_laws, 1 if hit0 else 0, samples=[], distribution={})
+    if hit0:
+        rep.violation("a codec law fails on the implementation: %s" % hit0["observed"], hit0, True)
+        return
     if ok and not bad and all(o[1] for o in rep.obligations):
         return
     # something no longer checks: look for a concrete input on which a law fails on the implementation
